@@ -141,3 +141,18 @@ META["C02"] = {
         "variance is compared for N >= 2 only (documented domain)",
     ],
 }
+
+META["C06"] = {
+    "level": "fault_enumeration",
+    "parts": 3,
+    "tiers": {
+        "quick": {"shards": 3, "deadline_s": 300,
+                  "bounds": "PLAIN (d=2), VEGAS (4 bins, d=2, alpha 1.5), MULTI-CHANNEL (3 channels, beta 1/2, min 0.01); 3 adaptive iterations of 6 calls; every non-empty subset of the 6 points of one iteration (x3 iterations); every assignment of {NaN,+inf,-inf} (weight faults: also zero densities) for subsets of size <= 4, uniform kinds above; fault from the integrand value, the value handed to projector.add, or the multi-channel weight; with and without distributions (one 1-d with 3 bins and one 2-d with 2x2 bins); 3 types"},
+        "thorough": {"shards": 3, "deadline_s": 900, "bounds": "same as quick (the enumeration is complete at this bound)"},
+    },
+    "rule": "every fault subset x kind assignment is run on the real integrators and compared with its pair (same script, zero returned at the faulted points) on the canonical field description with non_zero_calls and bin counters masked; non-trivial = every case (at least one fault); distinct = distinct (configuration, iteration, subset, kinds)",
+    "assumptions": [
+        "finite values are O(1) so that squares cannot overflow; overflow of a finite value's square is outside the property",
+        "bin counters of distributions are masked in the comparison (the property speaks of counters aside); non_zero_calls of the faulted iteration must exceed the pair's by exactly the number of faulted points whose value is non-zero, finite_calls must be equal",
+    ],
+}
